@@ -13,7 +13,7 @@ Open Scope Z_scope.
          -> [1 vers suite master [cert..]] | [0]
    op 2  [2 key iv state ks maccol]                    encryptTicket -> VB ticket
    op 3  [3 consts table policy maccol ks]             checkForResumption
-         -> VErr 70 (no mutual version: handshake aborted earlier) | [0 connVers]
+         -> VErr 70 (no mutual version: the handshake fails before resumption is considered) | [0 connVers]
           | [1 connVers suite sessVers sessSuite master [cert..]]
    state  = [vers suite VB master [VB cert ..]]
    policy = [key ticketsDisabled cacheDisabled cachePresent [[VB id VB val]..] min max [suite..] clientAuth
